@@ -20,11 +20,14 @@ class Base(t.NamedTuple):
     plaintext: bytes
 
 
-def base_blob(seed: int, h: str, mode: str, in_env: bool, long_pt: bool = False) -> Base:
+def base_blob(seed: int, h: str, mode: str, in_env: bool, long_pt: bool = False, nest: bool = False) -> Base:
     d = seams.Drbg(("blobmut", seed, h, mode))
     alg = "DH" if mode == "nonce" else mode
     rk = seams.make_root(d, h, alg)
     pt = d.bytes(300) if long_pt else b"secret-" + d.bytes(4)
+    if nest:
+        # a secret that is itself a DPAPI-NG blob the same root key opens (a secret protected twice), inner layout opposite to the outer one
+        pt = base_blob(seed, h, mode, not in_env).blob
     if mode == "nonce":
         blob = cms.ref_encrypt(rk, SID, pt, POS, cek=d.bytes(32), gcm_nonce_=d.bytes(12), key_nonce=d.bytes(32), domain="domain.test", forest="forest.test", in_envelope=in_env)
     else:
@@ -36,7 +39,7 @@ def base_blob(seed: int, h: str, mode: str, in_env: bool, long_pt: bool = False)
             c = ec.CURVES[alg.split("_")[1]]
             eph = 1 + int.from_bytes(d.bytes(c.size), "big") % (c.n - 1)
         blob = cms.ref_encrypt(rk, SID, pt, POS, cek=d.bytes(32), gcm_nonce_=d.bytes(12), ephemeral=eph, domain="domain.test", forest="forest.test", in_envelope=in_env)
-    return Base(f"{h}/{mode}/{'env' if in_env else 'trail'}{'/long' if long_pt else ''}", rk, blob, pt)
+    return Base(f"{h}/{mode}/{'env' if in_env else 'trail'}{'/long' if long_pt else ''}{'/nest' if nest else ''}", rk, blob, pt)
 
 
 def bases(seed: int, tier: str, with_dh: bool = False) -> t.List[Base]:
@@ -51,7 +54,16 @@ def bases(seed: int, tier: str, with_dh: bool = False) -> t.List[Base]:
 
 def base_by_id(seed: int, bid: str) -> Base:
     parts = bid.split("/")
-    return base_blob(seed, parts[0], parts[1], parts[2] == "env", len(parts) > 3)
+    return base_blob(seed, parts[0], parts[1], parts[2] == "env", "long" in parts[3:], "nest" in parts[3:])
+
+
+def nested_bases(seed: int, tier: str) -> t.List[Base]:
+    """bases whose plaintext is another blob of the same root key (C04: no unauthenticated field may steer a second decryption)"""
+    if tier == "quick":
+        combos = [("SHA512", "nonce", True), ("SHA512", "nonce", False), ("SHA256", "ECDH_P256", True)]
+    else:
+        combos = [(h, m, e) for h in HASHES for m in MODES for e in (True, False)]
+    return [base_blob(seed, h, m, e, nest=True) for h, m, e in combos]
 
 
 # -- field map -----------------------------------------------------------------------------------------------
